@@ -85,9 +85,9 @@ CLAIMED = {
         text='For every dataset, translator set and rule set: each element yields at most one standard entry, only if non-blank, non-ignored and with a value, entries keep dataset order; under the extracted default rules no entry has an odd group, the pixel-data tag, an overlay-data tag or a colour-LUT tag (private data only through translators). The ordered key list of the model equals the implementation on generated datasets (all common VRs/VMs, nested sequences, private blocks, name clashes, four configurations); values, JSON-serialisability, determinism and pixel purity are checked by the oracle.',
         design='DESIGN.md §7 C15', note=BASE_NOTE + ' pydicom and the CSA reader are parameters; the abstraction of elements is computed by the harness. Injectivity of suffixed keys is checked on generated data only.'),
     'C18': dict(
-        technique='Lean 4 theorems about the first-fit grouping model (partition, fault isolation by list surgery, strict raise) + directory-level correspondence and oracle',
-        text='For every list of items and any closeness relation the ids in the groups are a permutation of the readable image files; inserting a non-image dataset (or in warn mode an unreadable file) anywhere leaves the result unchanged, strict mode raises; first-fit placement lemmas; stack_group skips or aborts on files that cannot join. Synthetic directories with several series, shuffled paths and injected faults are grouped by the implementation and by the model.',
-        design='DESIGN.md §7 C18', note=BASE_NOTE + ' Permutation invariance of the partition (needs closeness to be an equivalence on the inputs) is established by the search only; pydicom reading is trusted.'),
+        technique='Lean 4 theorems about the first-fit grouping model (partition, order independence via a loop invariant, fault isolation by list surgery, strict raise) + directory-level correspondence and oracle',
+        text='For every list of items and any closeness relation the ids in the groups are a permutation of the readable image files; inserting a non-image dataset (or in warn mode an unreadable file) anywhere leaves the result unchanged, strict mode raises; first-fit placement lemmas; two files share a group iff they agree on the exact keys and are close on the tolerance keys, for any order of the paths, whenever closeness is an equivalence (together_iff, group_order_independent; invariant of the grouping loop); stack_group skips or aborts on files that cannot join. Synthetic directories with several series, shuffled paths and injected faults are grouped by the implementation and by the model.',
+        design='DESIGN.md §7 C18', note=BASE_NOTE + ' Order independence is proved where closeness is an equivalence on the values at hand (group_order_independent); where tolerances chain it fails in the model (kernel-checked witness) and in the code (finding F28); pydicom reading is trusted.'),
     'C19': dict(
         technique='Lean 4 theorems (no aliasing of module defaults per translator flag => invocation sequences are independent; unique output names; inject decision logic) + in-process vs fresh-process vs API comparison',
         text='The translator extracts whether dcmstack_cli.main aliases the module default regex lists; given it does not, module state is proved unchanged by an invocation and the filter lists of the i-th invocation of any sequence proved to depend on its own arguments only; output names are proved pairwise distinct for any natural names; nitool inject is proved to refuse invalid class / count / existing key, to touch only its key and to keep validity. Invocation sequences are run in one process and compared with fresh processes and with the equivalent API calls; nitool dump/embed/split/merge/lookup/inject compared with the API.',
